@@ -200,6 +200,7 @@ class Scheduler(object):
             self.replay = dict(((d[0], d[1]), d[2]) for d in plan['replay'])
             self.forced = list(plan.get('forced', ()))
         self._region_cache = {}
+        self._was_in_region = [False] * n
         self.seam_steps = 0
         self.p_seam = plan.get('p_seam', 0.3)
         self.opcodes = bool(plan.get('opcodes'))
@@ -251,6 +252,7 @@ class Scheduler(object):
         CURRENT = self
         _mon.use_tool_id(TOOL, 'verif-sim')
         _mon.register_callback(TOOL, _mon.events.LINE, self._on_line)
+        _mon.register_callback(TOOL, _mon.events.PY_RETURN, self._on_leave)
         if self.opcodes:
             _mon.register_callback(TOOL, _mon.events.INSTRUCTION,
                                                           self._on_instr)
@@ -279,6 +281,7 @@ class Scheduler(object):
                 except Exception:
                     pass
             _mon.register_callback(TOOL, _mon.events.LINE, None)
+            _mon.register_callback(TOOL, _mon.events.PY_RETURN, None)
             if self.opcodes:
                 _mon.register_callback(TOOL, _mon.events.INSTRUCTION, None)
             _mon.free_tool_id(TOOL)
@@ -396,11 +399,22 @@ class Scheduler(object):
                             r = True
                             break
             self._region_cache[code] = r
-            if r and self.opcodes:
-                # bytecode granularity inside the targeted region
-                _mon.set_local_events(TOOL, code, _mon.events.INSTRUCTION)
+            if r:
+                # returning from a region function is noticed, so that the
+                # line the caller continues with becomes a pre-emption point;
+                # bytecode granularity inside the region when asked for
+                ev = _mon.events.PY_RETURN    # (PY_UNWIND cannot be local)
+                if self.opcodes:
+                    ev |= _mon.events.INSTRUCTION
+                _mon.set_local_events(TOOL, code, ev)
                 self._instr_codes.append(code)
         return r
+
+    def _on_leave(self, code, offset, value):
+        me = self.by_ident.get(_get_ident())
+        if me is not None:
+            self._was_in_region[me] = True
+        return None
 
     def seam_point(self, site):
         """A pre-emption point inside a stand-in for non-Python code (a C
@@ -494,10 +508,17 @@ class Scheduler(object):
             if self.pct and self.step >= self.pct[0]:
                 self.pct.pop(0)
                 sw = True
-            elif self.region and self._in_region(code):
-                self.in_region_steps += 1
-                if self.rng.random() < self.p:
-                    sw = True
+            elif self.region:
+                inr = self._in_region(code)
+                # the line the caller continues with after a region function
+                # has returned is a pre-emption point too: otherwise nothing
+                # could run right after the region's last store
+                was = self._was_in_region[me]
+                self._was_in_region[me] = False
+                if inr or was:
+                    self.in_region_steps += 1
+                    if self.rng.random() < self.p:
+                        sw = True
             if sw:
                 cand = self._runnable(exclude=me)
                 if cand:
